@@ -483,9 +483,8 @@ func applyPush(ctx Context, doc bsonkit.Doc, name, path string, v interface{}) e
 				newArr = newArr[:int(s)]
 			}
 		default: // s < 0
-			keep := -int(s)
-			if keep < len(newArr) {
-				newArr = newArr[len(newArr)-keep:]
+			if s > -int64(len(newArr)) {
+				newArr = newArr[len(newArr)+int(s):]
 			}
 		}
 	}
@@ -493,6 +492,12 @@ func applyPush(ctx Context, doc bsonkit.Doc, name, path string, v interface{}) e
 	// store the updated array
 	if _, err := bsonkit.Put(doc, path, newArr, false); err != nil {
 		return err
+	}
+
+	// a missing field has been created as a whole: record the new array
+	changes := ctx.Value.(*Changes)
+	if field == bsonkit.Missing {
+		return changes.Record(path, newArr)
 	}
 
 	// no-op if neither the array contents nor its length changed (e.g. empty
@@ -505,7 +510,6 @@ func applyPush(ctx Context, doc bsonkit.Doc, name, path string, v interface{}) e
 	// elements in place, so we record per-element changes (matching the
 	// pre-modifier behavior). Anything that can shift elements ($position not
 	// at end, $sort, $slice) records the whole array.
-	changes := ctx.Value.(*Changes)
 	if !hasSort && !hasSlice && insertAt == len(arr) {
 		startIdx := insertAt
 		for i, val := range values {
